@@ -200,8 +200,10 @@ class Path:
         return d
 
     # ---- obligations
-    def prove(self, name, goal, detail="", assume=True):
-        """Record obligation `name`: pc => goal. Continues assuming the goal."""
+    def prove(self, name, goal, detail="", assume=True, auxiliary=False):
+        """Record obligation `name`: pc => goal. Continues assuming the goal.
+        auxiliary: the goal is proof scaffolding (a loop invariant applied to a function whose loops changed since the contract
+        was written); if it does not hold the unit is undecided (the scaffolding no longer fits), not violated."""
         if isinstance(goal, bool):
             goal = z3.BoolVal(goal)
         g = z3.simplify(goal)
@@ -264,6 +266,9 @@ class Path:
         if r == z3.unsat:
             self.results.record(Ob(name, "unsat", detail, ms=ms, backend=backend))
             ok = True
+        elif r == z3.sat and auxiliary:
+            self.results.record(Ob(name, "unknown", detail + " reason=loop contract written for an earlier shape of this function does not carry over", ms=ms))
+            ok = False
         elif r == z3.sat:
             self.results.record(Ob(name, "sat", detail, model=model or {}, ms=ms, backend=backend))
             ok = False
